@@ -17,6 +17,7 @@ package ggql
 import (
 	"bytes"
 	"fmt"
+	"go/token"
 	"io"
 	"io/fs"
 	"reflect"
@@ -220,8 +221,10 @@ func (root *Root) regField(obj *Object, fd *FieldDef, goField string, args ...st
 		meta = meta.Elem()
 	}
 	if meta.Kind() == reflect.Struct {
+		// Only an exported field can be read by reflection, the value of a
+		// field that is not exported panics when it is asked for.
 		if field, ok := meta.FieldByNameFunc(func(name string) bool {
-			return strings.EqualFold(name, goField)
+			return token.IsExported(name) && strings.EqualFold(name, goField)
 		}); ok {
 			fd.goField = field.Name
 			if 0 < len(args) {
